@@ -1,40 +1,58 @@
 ------------------------------- MODULE TxAuth -------------------------------
 (***************************************************************************)
 (* Sender authentication of account-based transactions (types/sign.go,     *)
-(* types/transaction.go, tx_type_txt.go, tx_type_cut.go, tx_utxo.go account *)
-(* input side, libs/crypto.ValidateSignatureValues / Ecrecover).            *)
+(* types/transaction.go, tx_type_txt.go, tx_type_cut.go, tx_utxo.go account*)
+(* input side, libs/crypto.ValidateSignatureValues / Ecrecover).           *)
 (*                                                                         *)
-(* One transaction object travels through the operations the code offers:   *)
-(*   Mutate(f)     a signed field is changed on the wire and the bytes are  *)
-(*                 decoded again (ser.DecodeBytes into a fresh object)      *)
-(*   MutateSig(c)  V, R or S is changed on the wire (classes below)         *)
-(*   Sign(k,p)     tx.Sign(NewSTDEIP155Signer(p), k) / WithSignature on the *)
-(*                 SAME object (types.sign: hash over fields ++ <<p,0,0>>)  *)
-(*   SignLegacy(k) a signature made outside the repo over the Homestead     *)
-(*                 hash (fields only), V = 27 + recid                       *)
-(*   ChangeParam   the verifying node uses the other chain parameter        *)
-(*   Query         sender(signer, data): cache hit or signer.Sender + store *)
-(*   Admit         mempool.AddTx: CheckTx fills the sender cache of the     *)
-(*                 object that stays in the mempool cache (key: tx hash)    *)
-(*   BlockVerify   app.verifyTxsOnProcess: GetTxFromCache(hash) hit =>      *)
-(*                 StoreFrom(cached.From()), miss => From()                 *)
-(*   ReDecode      encode + decode: a fresh object, empty caches            *)
+(* One transaction object travels through the operations the code offers:  *)
+(*   Mutate(f)     a signed field is changed on the wire and the bytes are *)
+(*                 decoded again (ser.DecodeBytes into a fresh object)     *)
+(*   MutateSig(c)  V, R or S is changed on the wire (classes below)        *)
+(*   Sign(k,p)     tx.Sign(NewSTDEIP155Signer(p), k) / WithSignature on the*)
+(*                 SAME object (types.sign: hash over fields ++ <<p,0,0>>) *)
+(*   SignLegacy(k) a signature made outside the repo over the Homestead    *)
+(*                 hash (fields only), V = 27 + recid                      *)
+(*   ChangeParam   the verifying node uses the other chain parameter       *)
+(*   Query         sender(signer, data): cache hit or signer.Sender + store*)
+(*   AdmitPut      mempool.AddTx, first linearisation point: cache.Put of  *)
+(*                 the object with BasicChecked = FALSE - BEFORE its basic *)
+(*                 check (signature / multi-signature / ring signature)    *)
+(*   AdmitVerdict  mempool.AddTx, second linearisation point: the basic    *)
+(*                 check has run on the pooled object; passed => the flag  *)
+(*                 is set (the object stays, key: tx hash), failed =>      *)
+(*                 cache.Delete                                            *)
+(*   BlockVerify   block verification of a received block carrying the     *)
+(*                 current transaction (app.CheckBlock: verifySpecTxSign + *)
+(*                 verifyTxsOnProcess). It asks GetTxFromCache(hash) of    *)
+(*                 the mempool                                             *)
+(*                 and may run at ANY time, in particular between AdmitPut *)
+(*                 and AdmitVerdict of the same hash. What a hit means     *)
+(*                 depends on the kind of transaction (parameter m):       *)
+(*                   "rederive"  Transaction, TokenTransaction, account    *)
+(*                               input: from := cacheTx.From(); StoreFrom  *)
+(*                   "trust"     MultiSignAccountTx (VerifySign skipped),  *)
+(*                               UTXOTransaction (CheckBasic skipped)      *)
+(*                 miss => the full check of the block's own object        *)
+(*   ReDecode      encode + decode: a fresh object, empty caches           *)
 (*                                                                         *)
-(* Cryptography is ideal: a signature remembers (key, fields, hash          *)
-(* parameter) it was made over; Ecrecover returns that key iff the hash the *)
-(* verifier recomputes from the CURRENT content is the signed one and the   *)
-(* recovery id is the right one, and an address nobody holds otherwise.     *)
-(* Fields are abstract (1..NFields, all alike here); the harness maps them  *)
-(* onto every concrete signed field of every transaction kind.              *)
+(* Cryptography is ideal: a signature remembers (key, fields, hash         *)
+(* parameter) it was made over; Ecrecover returns that key iff the hash the*)
+(* verifier recomputes from the CURRENT content is the signed one and the  *)
+(* recovery id is the right one, and an address nobody holds otherwise.    *)
+(* Fields are abstract (1..NFields, all alike here); the harness maps them *)
+(* onto every concrete signed field of every transaction kind.             *)
 (*                                                                         *)
-(* Two deviations of the code are switches, so that TLC can be run "as      *)
-(* designed" (both FALSE: every invariant holds, behaviours are exported    *)
-(* and replayed on the real code) and "as coded" (TRUE: TLC shows which     *)
-(* invariant the deviation breaks):                                         *)
-(*   LegacyAccepted    STDEIP155Signer.Sender hands V in {27,28} to the     *)
-(*                     Homestead signer whose hash omits the parameter      *)
-(*   ResignKeepsCache  Sign/WithSignature copy the data struct including    *)
-(*                     the memoised sender (fromValue)                      *)
+(* Two deviations of the code are switches, so that TLC can be run "as     *)
+(* designed" (both FALSE: every invariant holds, behaviours are exported   *)
+(* and replayed on the real code) and "as coded" (TRUE: TLC shows which    *)
+(* invariant the deviation breaks):                                        *)
+(*   LegacyAccepted    STDEIP155Signer.Sender hands V in {27,28} to the    *)
+(*                     Homestead signer whose hash omits the parameter     *)
+(*   ResignKeepsCache  Sign/WithSignature copy the data struct including   *)
+(*                     the memoised sender (fromValue)                     *)
+(* A third switch is a what-if (FALSE as coded and as designed):           *)
+(*   ServeUnchecked    GetTxFromCache hands out entries whose basic check  *)
+(*                     has not finished (txCache.Get, not CheckAndGet)     *)
 (***************************************************************************)
 EXTENDS Integers, FiniteSets, TLC, Json
 
@@ -42,7 +60,8 @@ CONSTANTS NFields,           \* abstract signed fields
           MaxSteps,          \* bound on content-changing steps per behaviour
           MaxSigMut,         \* bound on signature malformations per behaviour
           LegacyAccepted,    \* as coded: TRUE
-          ResignKeepsCache   \* as coded: TRUE
+          ResignKeepsCache,  \* as coded: TRUE
+          ServeUnchecked     \* what-if: TRUE
 
 Fields == 1..NFields
 Keys   == {"k1", "k2"}       \* k1 = the owner, k2 = somebody else's key
@@ -56,7 +75,7 @@ VARIABLES alt,    \* set of fields whose value differs from the original content
           sig,    \* the signature carried by the object (record below)
           vp,     \* chain parameter of the verifying node
           cache,  \* stdSigCache of the object: [p, who] or NoCache
-          pool,   \* the object kept by the mempool cache: [alt, sig, who] or NoPool
+          pool,   \* the entry of the mempool cache: [alt, sig, who, chk] or NoPool; chk = BasicChecked
           steps, sigmuts,
           last    \* action label with the expected result (output only)
 vars == <<alt, sig, vp, cache, pool, steps, sigmuts, last>>
@@ -68,7 +87,8 @@ Signed(k, f, p) == [key |-> k, over |-> f, hp |-> p, enc |-> "eip", vpar |-> p,
 LegacySigned(k, f) == [key |-> k, over |-> f, hp |-> None, enc |-> "legacy", vpar |-> None,
                        rec |-> "ok", r |-> "ok", s |-> "ok"]
 NoCache == [p |-> None, who |-> None]
-NoPool  == [alt |-> {}, sig |-> Signed(None, {}, None), who |-> None]
+NoPool  == [alt |-> {}, sig |-> Signed(None, {}, None), who |-> None, chk |-> FALSE]
+HitModes == {"rederive", "trust"}
 
 (* ---- the code's algorithm (types/sign.go) ------------------------------ *)
 \* isProtectedV: everything but 27/28
@@ -150,7 +170,10 @@ SignLegacy(k) ==
     /\ UNCHANGED <<alt, vp, pool, sigmuts>>
     /\ last' = [op |-> "signlegacy", k |-> k]
 
+\* (not while an admission is in flight on this node: the step commutes with AdmitVerdict and
+\* BlockVerify needs vp = "p0", so those interleavings add nothing but states)
 ChangeParam ==
+    /\ (pool = NoPool \/ pool.chk)
     /\ vp' = Other(vp)
     /\ UNCHANGED <<alt, sig, cache, pool, steps, sigmuts>>
     /\ last' = [op |-> "param", p |-> vp']
@@ -168,25 +191,43 @@ Query ==
     /\ UNCHANGED <<alt, sig, vp, pool, steps, sigmuts>>
     /\ last' = [op |-> "query", res |-> q.res]
 
-\* mempool.AddTx on this chain: CheckTx(BasicCheck) must pass; the object stays in the cache
-Admit ==
+\* mempool.AddTx on this chain, up to `mem.cache.Put(cacheTx)`: ANY transaction gets in, flagged unchecked
+\* (the mempool receives its own decoded object: the memo of the travelling object is not touched)
+AdmitPut ==
     /\ steps < MaxSteps /\ steps' = steps + 1
     /\ vp = "p0" /\ pool = NoPool
-    /\ LET q == SenderCached("p0") IN
-         /\ q.res \in Keys
-         /\ cache' = q.cache
-         /\ pool' = [alt |-> alt, sig |-> sig, who |-> q.res]
-    /\ UNCHANGED <<alt, sig, vp, sigmuts>>
-    /\ last' = [op |-> "admit"]
+    /\ pool' = [alt |-> alt, sig |-> sig, who |-> None, chk |-> FALSE]
+    /\ UNCHANGED <<alt, sig, vp, cache, sigmuts>>
+    /\ last' = [op |-> "admitput"]
 
-\* app.verifyTxsOnProcess for one transaction of a received block; Hash() covers every
-\* field and V, R, S, so the lookup hits only for a byte-identical transaction
-BlockVerify ==
-    /\ vp = "p0" /\ pool # NoPool
-    /\ LET hit == pool.alt = alt /\ pool.sig = sig
-           q   == SenderCached("p0") IN
-         /\ cache' = IF hit THEN [p |-> "p0", who |-> pool.who] ELSE q.cache
-         /\ last' = [op |-> "blockverify", hit |-> hit, res |-> IF hit THEN pool.who ELSE q.res]
+\* ... and from the return of app.CheckTx(tx, BasicCheck) on: `cacheTx.BasicChecked = true` / `mem.cache.Delete`
+AdmitVerdict ==
+    /\ pool # NoPool /\ ~pool.chk
+    /\ LET r == EIP155Sender("p0", pool.alt, pool.sig) IN
+         /\ pool' = IF r \in Keys THEN [pool EXCEPT !.who = r, !.chk = TRUE] ELSE NoPool
+         /\ last' = [op |-> "admitverdict", ok |-> r \in Keys]
+    /\ UNCHANGED <<alt, sig, vp, cache, steps, sigmuts>>
+
+\* mempool.GetTxFromCache(hash) = cache.CheckAndGet: Hash() covers every field and V, R, S, so the
+\* lookup finds only a byte-identical transaction, and only one whose basic check has passed
+Served == /\ pool # NoPool /\ pool.alt = alt /\ pool.sig = sig
+          /\ (pool.chk \/ ServeUnchecked)
+\* cacheTx.From(): the memo the basic check left in the pooled object, or recovery from its content
+PoolFrom == IF pool.chk THEN pool.who ELSE EIP155Sender("p0", pool.alt, pool.sig)
+
+\* app.CheckBlock for a received block with the current transaction (a freshly decoded object)
+BlockVerify(m) ==
+    /\ vp = "p0"
+    /\ (~Served => m = "rederive")                          \* a miss is the same for every kind
+    /\ LET q      == SenderCached("p0")
+           trust  == Served /\ m = "trust"
+           res    == IF ~Served THEN q.res ELSE IF trust THEN "skipped" ELSE PoolFrom
+           accept == trust \/ res \in Keys
+       IN  /\ cache' = IF ~Served THEN q.cache
+                       ELSE IF trust \/ PoolFrom = "err" THEN cache
+                       ELSE [p |-> "p0", who |-> PoolFrom]
+           /\ last' = [op |-> "blockverify", m |-> IF Served THEN m ELSE "any", hit |-> Served,
+                       res |-> res, accept |-> accept]
     /\ UNCHANGED <<alt, sig, vp, pool, steps, sigmuts>>
 
 ReDecode ==
@@ -206,7 +247,8 @@ Next == \/ \E f \in Fields : Mutate(f)
         \/ \E c \in SigClasses : MutateSig(c)
         \/ \E k \in Keys, p \in Params : Sign(k, p)
         \/ \E k \in Keys : SignLegacy(k)
-        \/ ChangeParam \/ Query \/ Admit \/ BlockVerify \/ ReDecode \/ LibValidate
+        \/ ChangeParam \/ Query \/ AdmitPut \/ AdmitVerdict \/ ReDecode \/ LibValidate
+        \/ \E m \in HitModes : BlockVerify(m)
 
 Spec == Init /\ [][Next]_vars
 
@@ -217,7 +259,7 @@ SigOK == /\ sig.key \in Keys \cup {None} /\ sig.over \subseteq Fields
          /\ sig.r \in {"ok", "zero", "geN"} /\ sig.s \in {"ok", "zero", "geN", "high"}
 TypeOK == /\ alt \subseteq Fields /\ SigOK /\ vp \in Params /\ steps \in 0..MaxSteps
           /\ cache.p \in Params \cup {None} /\ cache.who \in Keys \cup {"other", None}
-          /\ pool.who \in Keys \cup {None} /\ sigmuts \in 0..MaxSigMut
+          /\ pool.who \in Keys \cup {None} /\ pool.chk \in BOOLEAN /\ sigmuts \in 0..MaxSigMut
 
 \* Whatever sender the object memoises is what recovery from its CURRENT content gives.
 SenderIsSigner == cache # NoCache => cache.who = EIP155Sender(cache.p, alt, sig)
@@ -230,11 +272,21 @@ MalleableRejected ==
     (sig.r # "ok" \/ sig.s # "ok" \/ sig.rec = "out") => \A p \in Params : EIP155Sender(p, alt, sig) = "err"
 \* A mempool-cache hit hands over the sender of a byte-identical transaction only.
 PoolHitExact ==
-    [][ (last'.op = "blockverify" /\ last'.hit) => cache'.who = EIP155Sender("p0", alt', sig') ]_vars
+    [][ (last'.op = "blockverify" /\ last'.hit /\ last'.res \in Keys) => cache'.who = EIP155Sender("p0", alt', sig') ]_vars
 \* Every answer the code gives is the recovery from the current content.
 AnswerIsRecover ==
-    [][ last'.op \in {"query", "blockverify"} =>
+    [][ (last'.op \in {"query", "blockverify"} /\ last'.res # "skipped") =>
           last'.res = EIP155Sender(IF last'.op = "query" THEN vp ELSE "p0", alt, sig) ]_vars
+\* The cache vouches (flag set) only for an entry whose authorisation verified.
+PoolCheckedIsVerified ==
+    pool.chk => pool.who \in Keys /\ pool.who = EIP155Sender("p0", pool.alt, pool.sig)
+\* A block is accepted only if the authorisation of its transaction verifies - whatever the
+\* mempool cache holds at that moment (nothing, the same hash in flight, checked, removed) ...
+BlockAcceptsOnlyVerified ==
+    [][ (last'.op = "blockverify" /\ last'.accept) => EIP155Sender("p0", alt', sig') \in Keys ]_vars
+\* ... and a transaction whose authorisation verifies is accepted in every such cache state.
+BlockAcceptsVerified ==
+    [][ (last'.op = "blockverify" /\ EIP155Sender("p0", alt', sig') \in Keys) => last'.accept ]_vars
 
 (* ---- export ---------------------------------------------------------------- *)
 Proj(a, sg, v, c, pl, n) ==
